@@ -95,10 +95,31 @@ def _m1(quick):
     return cfg
 
 
+def _m2():
+    """Two partitions: an allocations event re-assigns a placed instance, the
+    next cycle takes it off its server outside the placement loop and places
+    it in the other partition."""
+    cfg = mastercfg.m2()
+    cfg['crash_in_handlers'] = True
+    cfg['monitors'] = [mastermon.mon_c09]
+    cfg['allow_nocycle'] = True
+    cfg['seeds'] = [
+        (),
+        (('app+', 'pl', True), ('app+', 't1', True)),
+    ]
+    cfg['events'] = mastercfg.ev(
+        ('app+', 'pl'), ('app-', 0),
+        ('alloc', 1), ('alloc', 2), ('alloc', 0),
+        ('srv', 's0', 1), ('srv', 's0', 0), ('srv', 's1', 1),
+        ('pres-', 's0'), ('pres+', 's0', 0), ('noop',), ('restart',),
+    )
+    return cfg
+
+
 def configs(ctx):
     if ctx.quick:
-        return [('M1', _m1(True), 1, 1)]
-    return [('M1', _m1(False), 3, 1)]
+        return [('M1', _m1(True), 1, 1), ('M2', _m2(), 1, 1)]
+    return [('M1', _m1(False), 3, 1), ('M2', _m2(), 3, 1)]
 
 
 RULE = ('BFS over World-B histories; at every distinct state and for every '
